@@ -260,6 +260,8 @@ pub fn profile(prop: &str) -> Option<Profile> {
                 }
             }
             fo.push(f(Op::New, 0, 0, 0, 1));
+            // amortisation: push runs of 2^10 .. 2^14 elements (2^16 in a dedicated scenario of the thorough tier)
+            fo.push(f(Op::PushRun, 0, VIA_ERASED, 0, 1));
             p.focus = fo;
             p
         }
@@ -375,13 +377,13 @@ pub fn owned(prop: &str, v: &Violation) -> bool {
         "C03" => strict && (ledger || v.class == BadValue || v.ownership),
         "C04" => v.op == Op::TypeProbe,
         "C05" => {
-            matches!(v.class, MemEnv | LenGtCap | ObjectGuard | StorageLeak | BadValue | GarbageDrop)
+            matches!(v.class, MemEnv | LenGtCap | ObjectGuard | StorageLeak | BadValue | GarbageDrop | SharedStorage)
                 || (v.class == Alloc && !v.detail.contains("layout"))
                 || v.faulted == F_MEM_FAIL
         }
         "C06" => matches!(v.faulted, F_DROP_PANIC | F_CLONE_PANIC | F_NEXT_PANIC | F_LEN_LIE | F_MEM_FAIL),
         "C07" => v.faulted == 5,
-        "C08" => strict && matches!(v.op, Op::CloneVec | Op::CloneEmpty | Op::CloneEmptyIn) && (content || ledger || v.class == CloneCount),
+        "C08" => v.class == SharedStorage || (strict && matches!(v.op, Op::CloneVec | Op::CloneEmpty | Op::CloneEmptyIn) && (content || ledger || v.class == CloneCount)),
         "C09" => strict && (v.class == CloneCount || (matches!(v.op, Op::Lazy) && (content || ledger))),
         "C10" => strict && (matches!(v.class, CapPost | LenGtCap) || (v.op == Op::Cap && content)),
         "C11" => v.class == HeapUseOnStack || (v.on_stack && (content || (strict && ledger) || v.class == RelaxedInvalid || v.class == LenGtCap)),
